@@ -205,6 +205,22 @@ def r_johnson(idx, rep, rule="R-JOHNSON"):
             good = u(a) == "self.barycentric_coordinates[:%d]" % k and u(b) == "%s.points[%s]" % (ps[0], ps[1])
         rep.check(ok and good, rule, sc.key + ".%s|normalised weights applied to the listed vertices" % mname, m.where,
                   "Solution.%s must set coords[i] = w_i / sum(w) in argument order and search_direction = coords[:%d] . points[vertex list]" % (mname, k))
+    # Solution.from_vertex: the single weight lives in slot 0 (weights are listed in subset order), the point and its squared norm are vertex vi's
+    m = sc.methods.get("from_vertex")
+    if m is None:
+        raise AnalysisError("Solution.from_vertex vanished")
+    ps = [p for p in m.params() if p != "self"]
+    body = list(iter_stmts(m.node.body))
+    w0 = [st for st in body if isinstance(st, ast.Assign) and isinstance(st.targets[0], ast.Subscript) and u(st.targets[0].value) == "self.barycentric_coordinates"]
+    sd = [st for st in body if isinstance(st, ast.Assign) and u(st.targets[0]) == "self.search_direction"]
+    ds = [st for st in body if isinstance(st, ast.Assign) and u(st.targets[0]) == "self.distance_squared"]
+    ok = len(w0) == 1 and const(w0[0].targets[0].slice) == 0 and const(w0[0].value) in (1, 1.0) \
+        and len(sd) == 1 and u(sd[0].value) == "%s.points[%s]" % (ps[0], ps[1]) \
+        and len(ds) == 1 and u(ds[0].value).replace(" ", "") == "%s.dot_product_table[%s,%s]" % (ps[0], ps[1], ps[1])
+    rep.check(ok, rule, sc.key + ".from_vertex|weight 1 in slot 0, point and squared norm of vertex vi", m.where,
+              "Solution.from_vertex must set coords[0] = 1.0 (the weights are listed in the order of the reduced simplex, which has ONE vertex), "
+              "search_direction = points[vi] and distance_squared = dot_product_table[vi, vi]; found %s / %s / %s"
+              % ([u(x) for x in w0], [u(x.value) for x in sd], [u(x.value) for x in ds]))
 
 
 def r_parallel(idx, rep, rule="R-PARALLEL"):
